@@ -222,7 +222,7 @@ pub fn run(ctx: &mut Ctx) -> Result<(), Violation> {
         ctx.stage(&format!("api-all-functions-k{}", k), true, r)?;
     }
 
-    let cases = ctx.tier.pick(100_000, 1_500_000);
+    let cases = ctx.tier.pick(100_000, 8_000_000);
     let r = par_random(ctx, "random-api", cases, 80, |tape, st| {
         let mut t = Tape::new(tape);
         let mut f = gen_fun(&mut t, 8, 12);
@@ -244,7 +244,7 @@ pub fn run(ctx: &mut Ctx) -> Result<(), Violation> {
         jobs.push(Fun::new(TT::from_bits(2, b), vec![0, 1]));
     }
     let mut rng = crate::util::Rng::new(ctx.seed ^ 0xC07);
-    let extra = ctx.tier.pick(400, 5000);
+    let extra = ctx.tier.pick(400, 12_000);
     for i in 0..extra {
         if i % 2 == 0 {
             jobs.push(Fun::new(TT::from_bits(3, rng.next() & 0xff), vec![0, 1, 2]));
